@@ -226,10 +226,20 @@ func liveSession(r *vk.Run, rng *rand.Rand, idx int) {
 			sb.WriteByte('\n')
 		}
 		alt := fifo + ".alt"
-		os.WriteFile(alt, []byte(sb.String()), 0o644)
+		content := sb.String()
+		if k > 0 && rng.Intn(2) == 0 {
+			content = strings.TrimSuffix(content, "\n") // a final record without terminator
+			kinds["unterminated"] = true
+		}
+		os.WriteFile(alt, []byte(content), 0o644)
 		defer os.Remove(alt)
 		act := []string{"reload", "reload-sync"}[rng.Intn(2)]
-		if code, err := s.Post(act + "(cat '" + alt + "')"); err != nil || code != 200 {
+		// the producer's exit status is not part of the stream: whatever it wrote are the records
+		status := []string{"", "; exit 0", "; exit 1", "; exit 3"}[rng.Intn(4)]
+		if status != "" {
+			kinds["exit-status"] = true
+		}
+		if code, err := s.Post(act + "(cat '" + alt + "'" + status + ")"); err != nil || code != 200 {
 			r.Inconclusive(fmt.Sprintf("POST %s: %v %d", act, err, code))
 			return
 		}
